@@ -54,6 +54,9 @@ def run(ctx):
     for s, otoks in cond:
         r = c01.parse_impl(s)
         terms.append(f"({gtext(s)}, {c01.obs_term(r)})")
+        ctx.dist("condition.characters", ctx.bucket(len(s)))
+        ctx.dist("condition.stream", "tokens known" if otoks is not None else "mutated / malformed / garbage")
+        ctx.dist("condition.outcome", "tree" if r[0] == "ok" else r[1])
         if r[0] == "exn" and r[1] != "SyntaxErr":
             ctx.fail(f"cond|{s}", {"entry": "parse_condition_expression_to_tree", "string": s}, "Tree or SyntaxError", r[1], "oracle: only SyntaxError may escape")
         if otoks is not None:
@@ -97,6 +100,9 @@ def run(ctx):
     ahb_terms, res_terms = [], []
     AIMPORTS = "From Ahb Require Import Model.Prelude Model.Grammar Gen.Gen_grammar Gen.Gen_ahbgrammar Model.Lex Model.EvalAhb Model.Ahb Corr.Parse Corr.Ahb."
     for s in ahb:
+        _o = classify(lambda: parse_ahb(s))
+        ctx.dist("ahb.characters", ctx.bucket(len(s)))
+        ctx.dist("ahb.outcome", "tree" if _o[0] == "ok" else _o[1])
         ahb_terms.append(f"({gtext(s)}, {ahb_obs(classify(lambda: parse_ahb(s)))})")
         res_terms.append(f"({gtext(s)}, {resolve_obs(classify(lambda: asyncio.run(resolve(s, resolve_packages=False, replace_time_conditions=False))))})")
     for s in ahb:
